@@ -280,6 +280,9 @@ func (engine) Run(ci any) lib.Result {
 	}
 	ctxPlain, ctxH := obj.baseCtx(false), obj.baseCtx(true)
 	fctxPlain, fctxH := fresh.baseCtx(false), fresh.baseCtx(true)
+	// what the two copies keep between runs, before anything has run on them (record.go)
+	snapFresh0, snapObj0 := takeSnap(fresh, fctxH), takeSnap(obj, ctxH)
+	projFresh0 := objProj(fresh)
 	tagNo := 0
 	next := func() int { tagNo++; return tagNo }
 
@@ -357,6 +360,31 @@ func (engine) Run(ci any) lib.Result {
 			fail("cross-call", "after "+sp.String()+": "+v)
 		}
 	}
+
+	// the compiled record after use: nothing reachable from the compiled object, its builder, the
+	// shared option values or the shared parent context (spare slice capacity included) may differ
+	// from what was there before the first call
+	snapFresh1, snapObj1 := takeSnap(fresh, fctxH), takeSnap(obj, ctxH)
+	projFresh1 := objProj(fresh)
+	for _, d := range diffSnap(snapFresh0, snapFresh1) {
+		fail("record-changed", "what the compiled object keeps between runs was modified by the calls (concurrent phase, then solo calls): "+d)
+	}
+	for _, d := range diffSnap(snapObj0, snapObj1) {
+		fail("record-changed", "what the compiled object keeps between runs was modified by calls made one at a time: "+d)
+	}
+	if projFresh0 != projFresh1 {
+		fail("record-changed", fmt.Sprintf("the compiled graph record differs after the calls: %s before, %s after", clip(projFresh0), clip(projFresh1)))
+	}
+	recTag := "rec:none"
+	switch {
+	case snapFresh0.fail != "" || snapFresh1.fail != "" || snapObj0.fail != "" || snapObj1.fail != "" || projFresh0 == "unreachable":
+		recTag = "rec:unavailable" // the hook could not follow the closures of this tree: this oracle is off, the others are not
+	case snapFresh0.runners > 0:
+		recTag = fmt.Sprintf("rec:runners:%s:leaves:%s", bucket(snapFresh0.runners), bucket(len(snapFresh0.lines)))
+	case len(snapFresh0.lines) > 0:
+		recTag = "rec:norunner:leaves:" + bucket(len(snapFresh0.lines))
+	}
+	tags = append(tags, recTag)
 
 	// direct oracle: every concurrent call = its spec alone
 	usedSpecs := map[int]bool{}
@@ -476,7 +504,11 @@ func (engine) Run(ci any) lib.Result {
 	if modelled {
 		objT = "(Some (CO " + obj.desc.term() + " " + lib.CoqNat(obj.depth) + "))"
 	}
-	term := lib.CoqApp("CCase", objT, lib.CoqList(callT), lib.CoqList(tab), lib.CoqList(soloT), lib.CoqList(runT), lib.CoqStr(sched.String()))
+	var recT []string
+	if projFresh0 != "" && projFresh0 != "unreachable" {
+		recT = []string{lib.CoqStr(projFresh0), lib.CoqStr(projFresh1)}
+	}
+	term := lib.CoqApp("CCase", objT, lib.CoqList(callT), lib.CoqList(tab), lib.CoqList(soloT), lib.CoqList(runT), lib.CoqStr(sched.String()), lib.CoqList(recT))
 	if modelled {
 		tags = append(tags, "model:predicted")
 	} else {
@@ -512,8 +544,14 @@ func bucket(n int) string {
 		return "16-63"
 	case n < 256:
 		return "64-255"
+	case n < 1024:
+		return "256-1023"
+	case n < 4096:
+		return "1024-4095"
+	case n < 16384:
+		return "4096-16383"
 	}
-	return "256+"
+	return "16384+"
 }
 
 func clip(s string) string {
